@@ -1,7 +1,12 @@
-(** C12 — errors are classified and located truthfully (partial: classification
-    of compile errors and the rendered message are decided by correspondence).
+(** C12 — errors are classified and located truthfully (partial: the rendered message and the
+    classification of search errors are decided by correspondence).
     Statements only. *)
-From JP Require Import Base F64 Value Sig Functions Interp Lexer Wire Proofs.CallProof Proofs.ErrProof Proofs.InterpFacts.
+From JP Require Import Base F64 Value Sig Functions Interp Lexer Parser Wire Proofs.CallProof Proofs.ErrProof Proofs.InterpFacts Proofs.ParseErrProof.
+
+(** Every failure of compile is a parse error: the lexer (incl. the embedded JSON reader) and the parser only ever build parse errors. *)
+Theorem C12_compile_errors_are_parse_errors : forall s e, parse s = Err e -> exists p, e = EParse p.
+Proof. exact compile_errors_are_parse_errors. Qed.
+Print Assumptions C12_compile_errors_are_parse_errors.
 
 (** For any offset on a character boundary the reported line and column are the
     zero-based line and character column of that offset, for any mix of newlines
